@@ -265,6 +265,21 @@ func (r *c16Rig) checkNoTrace(hostBefore, renterBefore string, allowCommitted bo
 					if !c.Revision.RenterPublicKey.VerifyHash(h, c.Revision.RenterSignature) || !c.Revision.HostPublicKey.VerifyHash(h, c.Revision.HostSignature) {
 						return "c16:host-recorded-unsigned-contract|the host recorded a contract that does not carry both valid signatures"
 					}
+					// ... and its transaction must have been accepted by the host's pool (otherwise it can never confirm)
+					inPool := false
+					for _, txn := range r.host.n.CM.V2PoolTransactions() {
+						for _, fc := range txn.FileContracts {
+							inPool = inPool || r.w.CS.ContractSigHash(fc) == h
+						}
+						for _, res := range txn.FileContractResolutions {
+							if ren, ok := res.Resolution.(*types.V2FileContractRenewal); ok {
+								inPool = inPool || r.w.CS.ContractSigHash(ren.NewContract) == h
+							}
+						}
+					}
+					if !inPool {
+						return "c16:host-recorded-unconfirmable-contract|the host recorded a contract whose transaction is not in its transaction pool (it was rejected or never submitted), so the contract can never confirm"
+					}
 				}
 			}
 			return "committed"
